@@ -304,6 +304,18 @@ def _collapse_axis(arr: np.ndarray, naxis: int) -> np.ndarray:
 
 @memoize
 def _get_optimal_chunks_for_groups(chunks, labels):
+    labels = np.asarray(labels)
+    missing = labels < 0
+    if missing.any():
+        # Elements with a missing label (code -1) belong to no group and may live in any block:
+        # attach them to the preceding group (leading ones to the first group) instead of
+        # indexing the first/last positions with -1.
+        if missing.all():
+            return chunks
+        pos = np.where(missing, 0, np.arange(len(labels)))
+        np.maximum.accumulate(pos, out=pos)
+        labels = labels[pos]
+        labels = np.where(labels < 0, labels[~missing][0], labels)
     chunkidx = np.cumsum(chunks) - 1
     # what are the groups at chunk boundaries
     labels_at_chunk_bounds = _unique(labels[chunkidx])
@@ -749,7 +761,10 @@ def rechunk_for_blockwise(array: DaskArray, axis: T_Axis, labels: np.ndarray) ->
         Rechunked array
     """
     # TODO: this should be unnecessary?
-    labels = factorize_((labels,), axes=())[0]
+    labels, *_, props = factorize_((labels,), axes=())
+    if props.nanmask is not None and np.any(props.nanmask):
+        # missing labels are not one more group (factorize_ gives them the code `ngroups`)
+        labels = np.where(props.nanmask, -1, labels)
     chunks = array.chunks[axis]
     newchunks = _get_optimal_chunks_for_groups(chunks, labels)
     if newchunks == chunks:
@@ -2956,7 +2971,11 @@ def groupby_reduce(
             and by_.ndim == 1
             and not is_duck_dask_array(by_)
         ):
-            array = rechunk_for_blockwise(array, axis=-1, labels=by_)
+            # by_ holds integer codes, -1 meaning "no group": hand those over as missing labels,
+            # otherwise they are taken for one more group scattered over the axis
+            array = rechunk_for_blockwise(
+                array, axis=-1, labels=np.where(by_ < 0, np.nan, by_) if (by_ < 0).any() else by_
+            )
 
         result, groups = partial_agg(
             array=array,
